@@ -536,6 +536,7 @@ type FuncSpec struct {
 	Trusted  bool // contract assumed at call sites, body not verified (listed as assumption)
 	NoBody   bool
 	NoFrame  bool
+	Cheap    bool // package sweep: obligations get only the short focused query; generator failures are not errors
 	IEEE     bool
 	Sweep    map[string]bool
 	Reads    []string
@@ -589,12 +590,18 @@ type ContractFile struct {
 	Specs   []*SpecFunc
 	Lemmas  []*LemmaSpec
 	Externs []*ExternSpec
+	PkgSweep *PkgSweep
+}
+
+type PkgSweep struct {
+	Kinds map[string]bool
+	Props []string
 }
 
 var clauseKeywords = map[string]bool{
 	"func": true, "requires": true, "ensures": true, "modifies": true, "pure": true, "inline": true, "opaque": true,
 	"panics": true, "floats": true, "loop": true, "invariant": true, "decreases": true, "at": true, "assert": true,
-	"spec": true, "ghost": true, "lemma": true, "extern": true, "props": true, "let": true, "trusted": true, "axiom": true, "nobody": true, "sweep": true, "reads": true, "noframe": true,
+	"spec": true, "ghost": true, "sweep-package": true, "lemma": true, "extern": true, "props": true, "let": true, "trusted": true, "axiom": true, "nobody": true, "sweep": true, "reads": true, "noframe": true,
 }
 
 type rawClause struct {
@@ -896,6 +903,28 @@ func parseContractFile(path, pkg string) (*ContractFile, error) {
 				return nil, errf("trusted outside func")
 			}
 			fn.Trusted = true
+		case "sweep-package":
+			// sweep-package index,slice,panic [C07] [skip Name,Name]: every function of the package without a contract
+			// of its own is swept for these panic kinds with no precondition (cheap queries; what does not discharge is
+			// simply not claimed)
+			reset()
+			ps := &PkgSweep{Kinds: map[string]bool{}}
+			for _, tk := range strings.Fields(rc.text) {
+				if strings.HasPrefix(tk, "[") {
+					for _, p := range strings.Split(strings.Trim(tk, "[]"), ",") {
+						if p != "" {
+							ps.Props = append(ps.Props, p)
+						}
+					}
+					continue
+				}
+				for _, k := range strings.Split(tk, ",") {
+					if k != "" {
+						ps.Kinds[k] = true
+					}
+				}
+			}
+			cf.PkgSweep = ps
 		case "sweep":
 			if fn == nil {
 				return nil, errf("sweep outside func")
